@@ -121,7 +121,7 @@ def r1(ctx):
               witness={"failing_cases": len(f), "first": [{"mtu": x[0], "payload_length": x[1], "fragment_offsets": x[2]} for x in f[:3]]})
     pb = bld.params[1]
     # emitted payload: prefix + fragment for each enumerate(self.fragments)
-    fors = [n for n in walk_own(bld.node) if isinstance(n, ast.For)]
+    fors = [n for n in walk_own(bld.node) if isinstance(n, ast.For) and "self.fragments" in norm(n.iter)]
     ok = len(fors) == 1 and norm(fors[0].iter) == "enumerate(self.fragments)" and isinstance(fors[0].target, ast.Tuple)
     ys = [n for n in walk_own(bld.node) if isinstance(n, ast.Yield)]
     if ok and len(ys) == 1:
